@@ -124,7 +124,7 @@ pub fn cone_event(rng: &mut Rng, depth: u8, dd: u8, lon: f64, lat: f64, r: f64, 
   match res {
     None => { m.insert("p".into(), json!(1)); m.insert("dmax".into(), json!(0)); m.insert("cells".into(), json!([])); m.insert("wit".into(), json!([]));
               m.insert("full_excess".into(), json!(0)); m.insert("slack".into(), json!(0)); m.insert("rtol".into(), json!(0)); m.insert("pen".into(), json!(0));
-              m.insert("full_rel".into(), json!(0)); m.insert("r3".into(), json!((r * 1000.0) as i64)); }
+              m.insert("full_rel".into(), json!(0)); m.insert("r3".into(), json!((r * 1000.0) as i64)); m.insert("flat_same".into(), json!(-1)); }
     Some(bm) => {
       let large = class == "large";
       if bm.entries.len() > (if large { MAX_CELLS_LARGE } else { MAX_CELLS }) { return None; }
@@ -143,6 +143,11 @@ pub fn cone_event(rng: &mut Rng, depth: u8, dd: u8, lon: f64, lat: f64, r: f64, 
       }
       m.insert("full_rel".into(), json!(full_rel.min(1e9).round() as i64));
       m.insert("r3".into(), json!((r * 1000.0) as i64));
+      // beyond the listed properties (X00): the flat variant returns the flat view of the same coverage (-1: not evaluated)
+      let flat_same: i64 = if dd == 0 && bm.deep_size() <= 200_000 {
+        guarded(|| nested::cone_coverage_approx_flat(depth, lon, lat, r)).map_or(0, |f| (f.iter().cloned().collect::<Vec<u64>>() == bm.flat_iter().collect::<Vec<u64>>()) as i64)
+      } else { -1 };
+      m.insert("flat_same".into(), json!(flat_same));
       // tightness: centre within r + 2 * Dmax(depth of the cell)
       let mut slack: f64 = -1.0;
       for c in cells.iter() {
